@@ -42,7 +42,7 @@ func (eng) CoqRequire(mode string) string {
 func (eng) CoqCaseType(mode string) string { return "Check_batching.case" }
 func (eng) CoqRun(mode string) string      { return "Check_batching.run" }
 func (eng) Rule(mode string) string {
-	return "batcher cases: random histories of Add/IsFull/Flush(CurrentBatch | current, stale, future, negative token | the token received last)/timer expiry/late callbacks (expiry committed, the batch handed out and the next one started before the old callback sends its token), sizes 0..5, with and without delay, flush results read back only at the end of the history (aliasing); reorder cases: stimuli add/flush/fire/hold-adder/hold-timeout/release/complete-k/read over max sizes 0..4, buffer sizes 0..4, including the pattern 'time-out flusher held between Flush and Reserve while the adder fills and flushes the next batch', completions in generated order, fetches that return an error with no / half / all of their results while other batches are in flight or follow, calls made with an already cancelled context (a FetchBatch that ignores it, or one that answers it with an error), settled at the end; hammer cases: 2..4 adders x 20..60 items against 1..2 concurrent flushers. Non-trivial: at least two non-empty batches were handed out (batcher: two non-empty Flush results; reorder: two fetches; hammer: two batches); distinct by hash of the case."
+	return "batcher cases: random histories of Add/IsFull/Flush(CurrentBatch | current, stale, future, negative token | the token received last)/timer expiry/late callbacks (expiry committed, the batch handed out and the next one started before the old callback sends its token), sizes 0..5, with and without delay, flush results read back only at the end of the history (aliasing); reorder cases: stimuli add/flush/fire/hold-adder/hold-timeout/release/complete-k/read over max sizes 0..4, buffer sizes 0..4, including the pattern 'time-out flusher held between Flush and Reserve while the adder fills and flushes the next batch', completions in generated order, fetches that return an error with no / half / all of their results while other batches are in flight or follow, calls made with an already cancelled context (a FetchBatch that ignores it, or one that answers it with an error), a second caller goroutine (incl. one caller's flush waiting for a slot or parked at the gate while the other adds an item whose timer expires), settled at the end; hammer cases: 2..4 adders x 20..60 items against 1..2 concurrent flushers. Non-trivial: at least two non-empty batches were handed out (batcher: two non-empty Flush results; reorder: two fetches; hammer: two batches); distinct by hash of the case."
 }
 
 type op struct {
@@ -390,6 +390,8 @@ type rsys struct {
 	out      []int
 	errs     []int // first items of the batches whose fetch error arrived on ErrChan, in order
 	busy     bool
+	busyB    bool  // a call of the second caller goroutine is unfinished
+	bGid     int64 // the second caller goroutine
 	holdA    bool
 	holdT    bool
 	heldA    bool
@@ -415,7 +417,9 @@ func hook(name string, args ...any) {
 	gid := goid()
 	var ch chan struct{}
 	s.mu.Lock()
-	if gid == s.adderGid {
+	if gid == s.bGid {
+		// the second caller is never parked at the gate
+	} else if gid == s.adderGid {
 		if s.holdA {
 			s.holdA, s.heldA = false, true
 			ch = make(chan struct{})
@@ -550,6 +554,30 @@ func execReorder(c *hx.Case) (*hx.Result, error) {
 		}
 	}()
 	<-ready
+	// a second goroutine calling Add / Flush (ops addB / flushB): callers of the fetcher need not be one goroutine
+	bOps := make(chan op)
+	readyB := make(chan struct{})
+	go func() {
+		s.bGid = goid()
+		close(readyB)
+		for o := range bOps {
+			callCtx := liveCtx
+			if o.C == 1 {
+				callCtx = goneCtx
+			}
+			switch o.K {
+			case "addB":
+				rf.Add(callCtx, o.X)
+			case "flushB":
+				rf.Flush(callCtx)
+			}
+			s.mu.Lock()
+			s.busyB = false
+			s.mu.Unlock()
+		}
+	}()
+	<-readyB
+	twoCallers := false
 	if err := waitQuiescent(); err != nil {
 		cancel()
 		return nil, err
@@ -597,6 +625,28 @@ func execReorder(c *hx.Case) (*hx.Result, error) {
 				tags["r.call-with-cancelled-context"] = true
 			}
 			adderOps <- o
+		case "addB", "flushB":
+			if s.busyB {
+				s.mu.Unlock()
+				tags["r.second-caller-call-skipped-busy"] = true
+				return nil
+			}
+			s.busyB = true
+			if s.busy || s.heldA || s.heldT {
+				tags["r.second-caller-while-a-flush-is-in-progress"] = true
+			}
+			s.mu.Unlock()
+			twoCallers = true
+			tags["r.two-callers"] = true
+			if o.K == "addB" {
+				nextItem++
+				o.X = nextItem
+				added = append(added, o.X)
+				stim = fmt.Sprintf("SAddB %d %s", o.X, hx.CoqBool(o.C == 1))
+			} else {
+				stim = "SFlushB " + hx.CoqBool(o.C == 1)
+			}
+			bOps <- o
 		case "fire":
 			s.mu.Unlock()
 			if !timer.isArmed() {
@@ -718,6 +768,14 @@ func execReorder(c *hx.Case) (*hx.Result, error) {
 	if err := drainAll(); err != nil {
 		return fail(err)
 	}
+	// Q: every gate released, every fetch completed, every goroutine at rest - before the final explicit Flush.
+	// Whatever was accepted before the last timer expiry served must have been handed to FetchBatch by now.
+	s.mu.Lock()
+	fetchedAtQ := 0
+	for _, f := range s.fetches {
+		fetchedAtQ += len(f.events)
+	}
+	s.mu.Unlock()
 	if err := apply(op{K: "flush"}); err != nil {
 		return fail(err)
 	}
@@ -728,7 +786,7 @@ func execReorder(c *hx.Case) (*hx.Result, error) {
 		return fail(err)
 	}
 	s.mu.Lock()
-	settled := !s.busy && !s.heldA && !s.heldT && len(s.outstanding()) == 0
+	settled := !s.busy && !s.busyB && !s.heldA && !s.heldT && len(s.outstanding()) == 0
 	out := append([]int{}, s.out...)
 	errs := append([]int{}, s.errs...)
 	var batches [][]int
@@ -742,8 +800,11 @@ func execReorder(c *hx.Case) (*hx.Result, error) {
 			tags["r.batch-fetched-with-cancelled-context"] = true
 		}
 	}
-	busy := s.busy
+	busy, busyB := s.busy, s.busyB
 	s.mu.Unlock()
+	if !busyB {
+		close(bOps)
+	}
 	sort.SliceStable(batches, func(i, j int) bool { return first(batches[i]) < first(batches[j]) })
 	// shut down: the time-out goroutine leaves on ctx.Done, the adder and consumer goroutines on their channels
 	cancel()
@@ -755,9 +816,9 @@ func execReorder(c *hx.Case) (*hx.Result, error) {
 	for i, b := range batches {
 		bs[i] = coqNList(b)
 	}
-	term := fmt.Sprintf("RCase %d %s %d %s %s %s %s %s %s %s %s", maxSize, hx.CoqBool(delay > 0), bufSize,
+	term := fmt.Sprintf("RCase %d %s %d %s %s %s %s %s %s %s %s %d %s", maxSize, hx.CoqBool(delay > 0), bufSize,
 		hx.CoqList(steps, "rstep"), coqNList(added), coqNList(out), hx.CoqList(bs, "list N"),
-		hx.CoqList(fails, "N * N"), coqNList(errs), hx.CoqList(ctxs, "N * bool"), hx.CoqBool(settled))
+		hx.CoqList(fails, "N * N"), coqNList(errs), hx.CoqList(ctxs, "N * bool"), hx.CoqBool(twoCallers), fetchedAtQ, hx.CoqBool(settled))
 	var tl []string
 	for t := range tags {
 		tl = append(tl, t)
@@ -767,7 +828,7 @@ func execReorder(c *hx.Case) (*hx.Result, error) {
 		tl = append(tl, "r.batches>=2")
 	}
 	return &hx.Result{Term: term, Nontrivial: len(batches) >= 2, Tags: tl,
-		Observed: map[string]any{"added": added, "output": out, "fetched_batches": batches, "failed_fetches": fails, "errors_received": errs, "fetch_contexts_cancelled": ctxs, "settled": settled, "steps": obsLog}}, nil
+		Observed: map[string]any{"added": added, "output": out, "fetched_batches": batches, "failed_fetches": fails, "errors_received": errs, "fetch_contexts_cancelled": ctxs, "two_callers": twoCallers, "items_fetched_before_final_flush": fetchedAtQ, "settled": settled, "steps": obsLog}}, nil
 }
 
 // ------------------------------------------------------------------ hammer kind
@@ -1004,6 +1065,41 @@ func genReorder(r *hx.Rand) *hx.Case {
 			}
 		}
 	}
+	// a second caller goroutine: in a third of the schedules some calls come from it; plus the pattern
+	// "one caller's flush waits (for a slot / at the gate) while the other adds an item whose timer expires"
+	if r.Chance(1, 3) {
+		for i := range ops {
+			if ops[i].K == "add" && r.Chance(1, 3) {
+				ops[i].K = "addB"
+			} else if ops[i].K == "flush" && r.Chance(1, 2) {
+				ops[i].K = "flushB"
+			}
+		}
+		if r.Chance(1, 2) {
+			var pat []op
+			if maxSize < 2 {
+				maxSize = r.Range(2, 4) // the second caller's item must stay pending
+			}
+			delay = 1
+			if r.Chance(1, 2) {
+				bufSize = r.Intn(2)
+				for i := 0; i < 2*(maxSize+1); i++ { // fill the buffer until the first caller's flush waits for a slot
+					pat = append(pat, op{K: "add"})
+				}
+			} else {
+				pat = append(pat, op{K: "holdA"})
+				for i := 0; i <= maxSize; i++ {
+					pat = append(pat, op{K: "add"})
+				}
+			}
+			pat = append(pat, op{K: "addB"}, op{K: "fire"}, op{K: "read"}, op{K: "release"}, op{K: "complete", X: r.Intn(3)})
+			if r.Chance(1, 2) {
+				ops = pat // nothing afterwards that would flush the pending item anyway
+			} else {
+				ops = append(pat, ops...)
+			}
+		}
+	}
 	// per-call contexts: some calls arrive with a context that is already cancelled
 	cancelFail := 0
 	if r.Chance(1, 2) {
@@ -1011,7 +1107,7 @@ func genReorder(r *hx.Rand) *hx.Case {
 	}
 	if r.Chance(1, 2) {
 		for i := range ops {
-			if (ops[i].K == "add" || ops[i].K == "flush") && r.Chance(1, 4) {
+			if (ops[i].K == "add" || ops[i].K == "flush" || ops[i].K == "addB" || ops[i].K == "flushB") && r.Chance(1, 4) {
 				ops[i].C = 1
 			}
 		}
